@@ -163,6 +163,7 @@ for _k, _v in ROUND9.items():
     CLAIMED[_k]["text"] = _t[:_i] + f" Round 9 (DESIGN §13.9): {_v}." + _t[_i:]
 
 ROUND10 = {
+ "C03": "a solid's material replaced by another solid between two temperature steps",
  "C04": "snapshots written while edge assemblies are in a third-core model, the core grid pitch changed between two writes",
  "C16": "keep-sets naming one of a pair of parameters whose setters write each other",
  "C01": "a batch (extend) naming one object twice",
